@@ -17,6 +17,7 @@
   them again.  A nil map and an empty map are identified (both `[]`): the code only ever tests `len(...)`.
 -/
 import Mcp.Model.Json
+import Mcp.Gen.PendingFacts
 import Mcp.Model.Escape
 namespace Mcp.InCall
 open Mcp.Str Mcp.Json
@@ -170,13 +171,21 @@ structure Facts where
   /-- the early return at the answer frame is taken only when no handler is registered -/
   drainWithHandlers : Bool
 
-/-- `fmt.Sprintf("%v", id) == fmt.Sprintf("%v", reqID)`: `id` comes out of `map[string]interface{}` (a number is a
-    `float64`, printed with `%g`-shortest: exponent form from 10^6 on), `reqID` is the client's `int64` counter -/
-def fmtVMatches (id : Json) (reqId : Nat) : Bool :=
+/-- `processEventData`'s id comparison for the two renderings the tree has had (`id` comes out of
+    `map[string]interface{}`: a number is a `float64`; `reqID` is the client's `int64` counter):
+    `idKey = true` — `requestIDKey(id) == requestIDKey(reqID)`: a number matches iff it is the counter value, a string
+    never; `idKey = false` — `%v` on both sides (before the D01 repair): exponent form from 10^6 on, a string of the same
+    digits matches. -/
+def idMatchesK (idKey : Bool) (id : Json) (reqId : Nat) : Bool :=
   match id with
-  | .int i => decide (i = (reqId : Int)) && decide (reqId < 1000000)
-  | .str s => s == natDigits reqId
+  | .int i => decide (i = (reqId : Int)) && (idKey || decide (reqId < 1000000))
+  | .str s => !idKey && s == natDigits reqId
   | _ => false
+
+/-- regenerated fact: both sides of the Streamable POST-SSE matcher render ids with `requestIDKey` -/
+def idKeyToday : Bool := Mcp.Gen.pdPostSseMatcher == (t!"idKey", t!"idKey")
+
+def fmtVMatches (id : Json) (reqId : Nat) : Bool := idMatchesK idKeyToday id reqId
 
 /-- the message is an answer to request `reqId` -/
 def asResponse (reqId : Nat) (j : Json) : Option Obj :=
